@@ -1,5 +1,9 @@
 // ---------------------------------------------------------------------------------
-// shims/io_take.rs - std::io::Take<R> (the adapter returned by std::io::Read::take).
+// shims/io_take_stderr.rs - std::io::Take<R> (the adapter returned by std::io::Read::take): shims/io_take.rs PLUS the
+// std_err()/intr_budget() vocabulary of shims/io.rs (Take forwards to its inner reader, so it honours std's error contract
+// exactly when the inner reader does).  Use INSTEAD of shims/io_take.rs in units that prove something under
+// `requires source.std_err()` for a reader built on a Take (U07).  A separate file because shims/io_take.rs is also included
+// after shims/io_pkterr.rs, whose Read trait has no std_err().
 // Include after shims/io.rs.  `mod io` of shims/io.rs cannot be re-opened, so the type is called
 // `IoTake` here; units rewrite the path `io::Take<` to `IoTake<` with a //@sub.
 //
@@ -7,7 +11,7 @@
 // what happens to the *inner* reader and to the limit: that is what a caller needs who later takes the
 // inner reader back with into_inner().
 // ---------------------------------------------------------------------------------
-//@trusted T2 std::io::Take<R>: read/fill_buf/consume deliver/drop the next bytes of the inner reader, never more than `limit`, and decrease `limit` by exactly the number of bytes delivered/dropped (the inner reader advances by the same number, fill_buf changes neither); limit()/into_inner()/get_mut() are plain accessors; Read::take(self, n) wraps self with limit n
+//@trusted T2 std::io::Take<R>: read/fill_buf/consume deliver/drop the next bytes of the inner reader, never more than `limit`, and decrease `limit` by exactly the number of bytes delivered/dropped (the inner reader advances by the same number, fill_buf changes neither); limit()/into_inner()/get_mut() are plain accessors; Read::take(self, n) wraps self with limit n; Take only forwards to the inner reader, so it honours std's error contract whenever the inner reader does (std_err()/intr_budget() are the inner reader's) and an Err of read/fill_buf then leaves limit and inner reader alone
 pub struct IoTake<R> {
     pub inner: R,
     pub limit: u64,
@@ -19,13 +23,15 @@ impl<R: io::Read> io::Read for IoTake<R> {
     open spec fn rest(&self) -> Seq<u8> {
         self.inner.rest().subrange(0, take_len(self.limit, self.inner.rest().len()) as int)
     }
+    open spec fn std_err(&self) -> bool { self.inner.std_err() }
+    open spec fn intr_budget(&self) -> nat { self.inner.intr_budget() }
     #[verifier::external_body]
     fn read(&mut self, buf: &mut [u8]) -> (r: io::Result<usize>)
         ensures
             match r {
                 Ok(n) => n <= old(self).limit && final(self).limit == old(self).limit - n
                     && final(self).inner.rest() == old(self).inner.rest().skip(n as int),
-                Err(_) => true,
+                Err(_) => old(self).inner.std_err() ==> final(self).limit == old(self).limit && final(self).inner.rest() == old(self).inner.rest(),
             }
     { unimplemented!() }
 }
@@ -38,7 +44,8 @@ impl<R: io::BufRead> io::BufRead for IoTake<R> {
         ensures
             match r {
                 Ok(b) => final(self).limit == old(self).limit && final(self).inner.rest() == old(self).inner.rest(),
-                Err(_) => true,
+                Err(_) => old(self).inner.std_err() ==> final(self).limit == old(self).limit && final(self).inner.rest() == old(self).inner.rest()
+                    && final(self).inner.buffered() == old(self).inner.buffered(),
             }
     { unimplemented!() }
     #[verifier::external_body]
